@@ -298,6 +298,17 @@ def t_rename(m, fresh, f, g, withhunk):
     return FP('rename%s(%s->%s)' % ('H' if withhunk else '', f, g), f, g, hunks, files=[f, g], apply=ap, git={'rename': True}, rename=True)
 
 
+def t_rename_fail(m, fresh, f, g):
+    """a git rename whose own content hunk cannot match: nothing is renamed, the reject belongs to the file as it still exists"""
+    if f not in m.t or g in m.t or len(m.t[f][0]) < 3:
+        return None
+    lines, mode = m.t[f]
+    bad = list(lines)
+    bad[1] = b'ZZZ'
+    h, _ = mk_hunk(bad, 1, 'rep', b'Q', 1)
+    return FP('renamefail(%s->%s)' % (f, g), f, g, [h], ok=False, files=[f, g], rej=f, fail_hunks=[0], git={'rename': True}, rename=True)
+
+
 def t_rename_onto(m, fresh, f, g):
     if f not in m.t or g not in m.t or f == g or not m.t[g][0]:
         return None
@@ -330,6 +341,19 @@ def t_orig(m, fresh, f):
     def ap(mm):
         mm.t[f] = (new, mm.t[f][1])
     return FP('orig(%s)' % f, f + '.orig', f, [h], files=[f], apply=ap)
+
+
+def t_viaold(m, fresh, gone, f):
+    """--- a/<gone>  +++ b/<f>: the old name existed at the start of the push but has been deleted or renamed away by an
+    earlier patch; the new name is the one to patch"""
+    if gone in m.t or f not in m.t or len(m.t[f][0]) < 5:
+        return None
+    lines, mode = m.t[f]
+    h, new = mk_hunk(lines, 4, 'rep', fresh(), 1)
+
+    def ap(mm):
+        mm.t[f] = (new, mm.t[f][1])
+    return FP('viaold(%s->%s)' % (gone, f), gone, f, [h], files=[f], apply=ap)
 
 
 def t_isdir(m, fresh, d):
@@ -441,8 +465,13 @@ def menu(m, fresh, rich=True):
             out.append(t_rename(m, fresh, f, g, True))
         out.append(t_rename(m, fresh, f, NEWFILES[0], False))
     out.append(t_rename_onto(m, fresh, 'f', 'd/g'))
+    out.append(t_rename_fail(m, fresh, 'f', 'n'))
+    out.append(t_rename_fail(m, fresh, 'd/g', 'x/y/n'))
     out.append(t_rename_onto(m, fresh, 'd/g', 'd/h'))
     out.append(t_isdir(m, fresh, 'd'))
+    for gone in ('f', 'd/g'):
+        for f in ('d/h', 'e/i', 'n'):
+            out.append(t_viaold(m, fresh, gone, f))
     out.append(t_misordered(m, fresh, 'f'))
     out.append(t_long_end(m, fresh, 'e/i'))
     for f in sorted(m.t):
